@@ -101,6 +101,17 @@ def _pool(rng, tier: str):
         docs.append(f"d{i}")
         if i == 0:
             docs_json = [tree]
+    if rng.random() < 0.4:
+        # values sharing objects by identity: a document's own member, or a wrapper around it
+        did = f"d{len(docs)}"
+        r3 = rng.random()
+        if r3 < 0.45:
+            setup.append({"op": "new_doc", "id": did, "spec": H.graft_spec(rng, "d0", docs_json[0])})
+        elif r3 < 0.75:
+            setup.append({"op": "new_doc", "id": did, "spec": {"member_of": "d0", "pick": rng.randrange(64)}})
+        else:
+            setup.append({"op": "new_doc", "id": did, "spec": {"wrap": "d0", "as": rng.choice(("list", "dict"))}})
+        docs.append(did)
     envspecs: Dict[str, Dict[str, Any]] = {"module": {"module": True}}
     for i in range(rng.choice((1, 1, 2))):
         spec: Dict[str, Any] = {"funcs": []}
@@ -140,7 +151,39 @@ _perturb = H.perturb
 # ---------------------------------------------------------------------------
 # Part A
 # ---------------------------------------------------------------------------
+def gen_shared_candidates(rng, sched_rng) -> Dict[str, Any]:
+    """Two DIFFERENT documents built around some of the same objects, one compiled query whose
+    filter judges those objects against a scalar elsewhere in the root, and a sweep: at every
+    suspension point of the iterator over the first document a fresh iterator over the second is
+    started.  (What an evaluation remembers about an object must not outlive the root it was
+    judged under.)"""
+    def rec():
+        return {"a": rng.randint(0, 3), "b": rng.randint(0, 3)}
+
+    items = [rec() for _ in range(rng.randint(2, 4))]
+    doc_a = {"a": items, "b": rng.randint(0, 3), "c": rng.randint(0, 3), "d": rng.randint(0, 3)}
+    doc_b = {"a": [rec() for _ in items], "b": rng.randint(0, 3), "c": rng.randint(0, 3), "d": rng.randint(0, 3)}
+    share = [["a", 0]] + ([["a", 1]] if rng.random() < 0.4 else []) + ([["a"]] if rng.random() < 0.2 else [])
+    q = rng.choice(("$.a[?@.a == $.b]", "$.a[?@.b != $.c]", "$..[?@.a == $.c]", "$.a[?@.a == $.b || @.b == $.d]", "$.a[?@.a < $.d]", "$..[?@.b == $.b]", "$.a[?!(@.a == $.c)]"))
+    ops = [
+        {"op": "new_doc", "id": "d0", "spec": {"json": doc_a}},
+        {"op": "new_doc", "id": "d1", "spec": {"graft_of": "d0", "json": doc_b, "share": share}},
+        {"op": "new_env", "id": "e0", "spec": {"funcs": []}},
+        {"op": "compile", "id": "c0", "env": rng.choice(("e0", "module")), "q": q},
+        {"op": "iter_open", "id": "sa", "c": "c0", "doc": "d0"},
+    ]
+    for k in range(rng.randint(2, 6)):
+        ops.append({"op": "iter_next", "it": "sa", "n": 1})
+        ops.append({"op": "iter_open", "id": f"sb{k}", "c": "c0", "doc": "d1"})
+        ops.append({"op": "iter_next", "it": f"sb{k}", "n": sched_rng.choice((1, 2, 5))})
+        if sched_rng.random() < 0.4:
+            ops.append({"op": sched_rng.choice(("iter_close", "iter_drop")), "it": f"sb{k}"})
+    return {"part": "A", "knobs": {"regex_maxcache": None}, "ops": ops, "strategy": "shared-candidates"}
+
+
 def gen_a(rng, sched_rng, tier: str) -> Dict[str, Any]:
+    if rng.random() < 0.06:
+        return gen_shared_candidates(rng, sched_rng)
     setup, docs, envs, envspecs, queries = _pool(rng, tier)
     ops = list(setup)
     compiled = []
@@ -161,7 +204,24 @@ def gen_a(rng, sched_rng, tier: str) -> Dict[str, Any]:
 
     for _ in range(k):
         open_one()
-    strategy = sched_rng.choice(("uniform", "uniform", "round-robin", "bursts", "starve", "reverse"))
+    strategy = sched_rng.choice(("uniform", "uniform", "round-robin", "bursts", "starve", "reverse", "sweep", "sweep"))
+    if strategy == "sweep":
+        # at EVERY suspension point of one iterator, a fresh iterator of the same compiled query
+        # over another value (a member of the first document, a wrapper, a same-shaped document)
+        # is started and advanced a little: whatever the first left on shared objects when it
+        # suspended is what the second meets first
+        c = sched_rng.choice(compiled)
+        d_a = docs[0]
+        others = [d for d in docs if d != d_a] or docs
+        ops.append({"op": "iter_open", "id": "sa", "c": c, "doc": d_a})
+        for k in range(sched_rng.choice((6, 12, 25))):
+            ops.append({"op": "iter_next", "it": "sa", "n": 1})
+            bid = f"sb{k}"
+            ops.append({"op": "iter_open", "id": bid, "c": c, "doc": sched_rng.choice(others)})
+            ops.append({"op": "iter_next", "it": bid, "n": sched_rng.choice((1, 2, 3))})
+            if sched_rng.random() < 0.5:
+                ops.append({"op": sched_rng.choice(("iter_close", "iter_drop")), "it": bid})
+        return {"part": "A", "knobs": {"regex_maxcache": rng.choice((1, 2, None))}, "ops": ops, "strategy": strategy}
     n_actions = sched_rng.choice((4, 8, 16, 30, 60))
     starved = sched_rng.choice(iters)
     for a in range(n_actions):
@@ -276,7 +336,8 @@ def gen_b(rng, sched_rng, tier: str) -> Dict[str, Any]:
         # string-rich documents and shared compiled queries that call match/search/length/count/value
         for i, did in enumerate(docs):
             op = next(o for o in setup if o["op"] == "new_doc" and o["id"] == did)
-            op["spec"] = {"json": _stringify(rng, op["spec"]["json"])}
+            if "json" in op["spec"]:
+                op["spec"] = {"json": _stringify(rng, op["spec"]["json"])}
         fq = [rng.choice(FUNCTION_QUERIES) for _ in range(rng.randint(2, 4))]
         fcompiled = []
         for i, q in enumerate(fq):
@@ -317,7 +378,7 @@ def gen_b(rng, sched_rng, tier: str) -> Dict[str, Any]:
         if rng.random() < 0.7:
             # a thread-private document (same shape as d0, different content)
             did = f"p{t}"
-            base = next(o for o in setup if o["op"] == "new_doc")["spec"]["json"]
+            base = next(o for o in setup if o["op"] == "new_doc" and "json" in o["spec"])["spec"]["json"]
             setup.append({"op": "new_doc", "id": did, "spec": {"json": _perturb(rng, copy.deepcopy(base))}})
             my_docs = [did, did, rng.choice(docs)]
         my_iters = list(shared_iters)
@@ -396,7 +457,15 @@ def execute_b(sc: Dict[str, Any], sseed: int):
             for t in sim.threads.values():
                 if t.exc is not None:
                     raise t.exc  # harness bug: programs catch everything the library raises
-            m.final_recheck()
+            # the final re-runs and the draining of live iterators also run on a simulated
+            # thread: an iterator whose lock is owned by a thread that is gone must end the run
+            # as a deadlock, not hang the harness
+            err = sched.run_guarded(m.final_recheck)
+            if isinstance(err, sched.Deadlock):
+                m._tl.label = "final"
+                m._violate("deadlock", f"re-running calls / draining live iterators after the threads finished blocks for ever: {err}")
+            elif err is not None:
+                raise err
     finally:
         simrandom.uninstall()
         m.close()
@@ -407,7 +476,21 @@ def execute_a(sc: Dict[str, Any], sseed: int):
     simr = simrandom.SimRandom(sseed)
     simrandom.install(simr)
     try:
-        return machine.run_history({"knobs": sc.get("knobs"), "ops": sc["ops"]}), None
+        m = machine.Machine(sc.get("knobs"))
+
+        def body() -> None:
+            for op in sc["ops"]:
+                m.step(op)
+            m.final_recheck()
+
+        err = sched.run_guarded(body)
+        if isinstance(err, sched.Deadlock):
+            m._tl.label = "iterators"
+            m._violate("deadlock", f"one thread, interleaved iterators: a call into the library blocks for ever: {err}")
+        elif err is not None:
+            raise err
+        m.close()
+        return m, None
     finally:
         simrandom.uninstall()
 
